@@ -23,6 +23,17 @@ TRJ_CLAUSE = ('compressed-trajectory coordinates and yaw encode to millimetres a
               'of error and overflow raises rather than wraps')
 
 
+BOUND = '|value| <= 1e6 (the 16-bit range ends at 32.768 m / 57.2 rad); the engine tracks int(float) exactly only below 2**62'
+
+
+def _bounded_inputs(c, names, scaled):
+    for n, e in zip(names, scaled):
+        c.require('-1e6 <= %s <= 1e6' % n)
+        # (implied by the bound; stated in the syntactic form in which the engine's int(float) model tests it, so that
+        # the tracked-exactly case is selected without a solver call)
+        c.require('%s < 4611686018427387904.0 and %s > -4611686018427387904.0' % (e, e))
+
+
 def _traj_encode(name, meth, scaled, unit):
     @contract('C13', 'traj.' + name, [TRJ + ':_CompressedBase.' + meth],
               clause=TRJ_CLAUSE + ' (%s: every float; NaN and infinities raise)' % unit)
@@ -39,15 +50,12 @@ def _traj_encode(name, meth, scaled, unit):
 
     @contract('C13', 'traj.' + name + '.error', [TRJ + ':_CompressedBase.' + meth],
               clause=TRJ_CLAUSE + ' (%s: less than one unit of error, across and far beyond the 16-bit range)' % unit,
-              bounded='|value| <= 1e6 (the 16-bit range ends at 32.768 m / 57.2 rad); the engine tracks int(float) exactly only below 2**62')
+              bounded=BOUND)
     def k2(c):
         self = c.new(TRJ + ':CompressedStart', 0.0, 0.0, 0.0, 0.0)
         c.float('x')
         c.let('DEG', DEG)
-        c.require('-1e6 <= x <= 1e6')
-        # (implied by the bound; stated in the syntactic form in which the engine's int(float) model tests it, so that
-        # the tracked-exactly case is selected without a solver call)
-        c.require('%s < 4611686018427387904.0 and %s > -4611686018427387904.0' % (scaled, scaled))
+        _bounded_inputs(c, ['x'], [scaled])
         c.call((self, meth), c.get('x'))
         c.ensure('no-exception', 'raised is None')
         c.ensure('less-than-one-unit-of-error', 'abs(%s - result) < 1' % scaled)
@@ -63,15 +71,16 @@ IN16 = '-32769 < %s < 32768'      # int() truncates toward zero: exactly the flo
 
 @contract('C13', 'traj.start.pack', [TRJ + ':CompressedStart.__init__', TRJ + ':CompressedStart.pack',
                                      TRJ + ':_CompressedBase._encode_spatial', TRJ + ':_CompressedBase._encode_yaw'],
-          clause=TRJ_CLAUSE + ' (start point: four little-endian signed 16-bit fields x, y, z in mm and yaw in 0.1 deg)')
+          clause=TRJ_CLAUSE + ' (start point: four little-endian signed 16-bit fields x, y, z in mm and yaw in 0.1 deg)', bounded=BOUND)
 def traj_start_pack(c):
     names = ['x', 'y', 'z', 'yaw']
     for n in names:
         c.float(n)
     c.let('DEG', DEG)
+    scaled = ['x * 1000', 'y * 1000', 'z * 1000', 'yaw * DEG * 10']
+    _bounded_inputs(c, names, scaled)
     self = c.new(TRJ + ':CompressedStart', *[c.get(n) for n in names])
     c.call((self, 'pack'))
-    scaled = ['x * 1000', 'y * 1000', 'z * 1000', 'yaw * DEG * 10']
     c.ensure('raises-iff-a-value-does-not-fit-16-bits', 'iff(raised is None, %s)' % ' and '.join('(%s)' % (IN16 % e) for e in scaled))
     c.ensure('declared-errors-only', "raised in (None, 'struct.error', 'ValueError', 'OverflowError')")
     c.ensure('finite-overflow-raises-struct-error', "implies(raised is not None and %s, raised == 'struct.error')" % ' and '.join(
@@ -82,3 +91,172 @@ def traj_start_pack(c):
         for i, e in enumerate(scaled):
             c.ensure('field-%s-less-than-one-unit-of-error' % names[i], 'abs(%s - f[%d]) < 1' % (e, i))
             c.ensure('field-%s-same-sign-or-zero' % names[i], 'implies(f[%d] > 0, %s > 0) and implies(f[%d] < 0, %s < 0)' % (i, names[i], i, names[i]))
+
+
+@contract('C13', 'traj.segment.encode_type', [TRJ + ':CompressedSegment._encode_type', TRJ + ':CompressedSegment._validate',
+                                              TRJ + ':CompressedSegment.__init__'],
+          clause='segment type bits: an element of 0 / 1 / 3 / 7 control points is announced as 0 / 1 / 2 / 3 (constant, linear, '
+                 'cubic, septic Bezier of the firmware piecewise-compressed format); every other length is refused by the constructor',
+          bounded='element lengths 0..9 enumerated')
+def traj_encode_type(c):
+    n = c.choice('n', list(range(10)))
+    el = c.floats('el', n)
+    c.let('n', n)
+    seg = c.new(TRJ + ':CompressedSegment', 1.0, [], [], [], [])
+    which = c.choice('axis', [0, 1, 2, 3])
+    args = [[], [], [], []]
+    args[which] = el
+    c.call(TRJ + ':CompressedSegment', 1.0, *args)
+    c.ensure('constructor-accepts-exactly-0-1-3-7', "iff(raised is None, n in (0, 1, 3, 7)) and raised in (None, 'Exception')")
+    if c.get('raised') is None:
+        c.call((seg, '_encode_type'), el)
+        c.ensure('type-code', 'raised is None and result == {0: 0, 1: 1, 3: 2, 7: 3}[n]')
+
+
+def _pack_element(n):
+    @contract('C13', 'traj.segment.pack_element.%d' % n, [TRJ + ':CompressedSegment._pack_element'],
+              clause='overflow raises rather than wraps: %d encoded value(s) are laid out as little-endian signed 16-bit integers, and '
+                     'struct.error is raised when one of them does not fit' % n,
+              bounded='element lengths 0, 1, 3, 7 (the only ones the constructor accepts)')
+    def k(c):
+        seg = c.new(TRJ + ':CompressedSegment', 1.0, [], [], [], [])
+        parts = c.ints('parts', n)
+        c.call((seg, '_pack_element'), parts)
+        c.ensure('raises-iff-a-value-does-not-fit-16-bits', 'iff(raised is None, all(-32768 <= p <= 32767 for p in parts))')
+        c.ensure('struct-error-only', "raised in (None, 'struct.error')")
+        if c.get('raised') is None:
+            c.ensure('two-bytes-per-value', "typename(result) == 'bytearray' and len(result) == %d" % (2 * n))
+            c.ensure('values-decode-exactly', "tuple(unpack('<%s', bytes(result))) == tuple(parts)" % ('h' * n))
+    return k
+
+
+for _n in (0, 1, 3, 7):
+    _pack_element(_n)
+
+TYPE_CODE = {0: 0, 1: 1, 3: 2, 7: 3}
+
+
+SEG_FUNCS = [TRJ + ':CompressedSegment.__init__', TRJ + ':CompressedSegment.pack', TRJ + ':CompressedSegment._encode_type',
+             TRJ + ':CompressedSegment._pack_element', TRJ + ':_CompressedBase._encode_spatial_element',
+             TRJ + ':_CompressedBase._encode_yaw_element', TRJ + ':_CompressedBase._encode_spatial', TRJ + ':_CompressedBase._encode_yaw']
+COMBOS = ((0, 0, 0, 0), (1, 1, 1, 1), (7, 0, 1, 3), (1, 3, 7, 0), (0, 7, 3, 1), (3, 1, 0, 7))
+
+
+def _segment_inputs(c, lens):
+    """a CompressedSegment built by its real constructor from symbolic control points; returns (segment, [(name, scaled expr)])"""
+    c.let('DEG', DEG)
+    c.float('duration')
+    _bounded_inputs(c, ['duration'], ['duration * 1000.0'])
+    els = []
+    scaled = []
+    for ax, n in zip(('ex', 'ey', 'ez', 'eyaw'), lens):
+        els.append(c.floats(ax, n))
+        for i in range(n):
+            scaled.append(('%s[%d]' % (ax, i), '%s[%d] * 1000' % (ax, i) if ax != 'eyaw' else '%s[%d] * DEG * 10' % (ax, i)))
+    _bounded_inputs(c, [a for a, _ in scaled], [e for _, e in scaled])
+    return c.new(TRJ + ':CompressedSegment', c.get('duration'), *els), scaled
+
+
+def _type_byte(lens):
+    return TYPE_CODE[lens[0]] | TYPE_CODE[lens[1]] << 2 | TYPE_CODE[lens[2]] << 4 | TYPE_CODE[lens[3]] << 6
+
+
+def _segment_pack_direct(lens):
+    @contract('C13', 'traj.segment.pack.decoded.%d_%d_%d_%d' % lens, SEG_FUNCS,
+              clause=TRJ_CLAUSE + ' (segment with %d/%d/%d/%d control points for x/y/z/yaw, end to end: the bytes decode, under the '
+                     'firmware layout <type byte, duration ms, control points as little-endian int16>, to values less than one unit '
+                     'from the caller\'s)' % lens, bounded=BOUND)
+    def k(c):
+        seg, scaled = _segment_inputs(c, lens)
+        c.call((seg, 'pack'))
+        fits = ['(-1 < duration * 1000.0 < 65536)'] + ['(%s)' % (IN16 % e) for _, e in scaled]
+        c.ensure('raises-iff-a-value-does-not-fit-16-bits', 'iff(raised is None, %s)' % ' and '.join(fits))
+        c.ensure('struct-error-only', "raised in (None, 'struct.error')")
+        if c.get('raised') is None:
+            total = sum(lens)
+            c.ensure('length', "typename(result) == 'bytearray' and len(result) == %d" % (3 + 2 * total))
+            c.snapshot('f', "unpack('<BH%s', bytes(result))" % ('h' * total))
+            c.ensure('type-byte', 'f[0] == %d' % _type_byte(lens))
+            c.ensure('duration-in-ms', 'f[1] == int(duration * 1000.0)')
+            for i, (a, e) in enumerate(scaled):
+                c.ensure('field-%s-less-than-one-unit-of-error' % a, 'abs(%s - f[%d]) < 1' % (e, i + 2))
+                c.ensure('field-%s-same-sign-or-zero' % a, 'implies(f[%d] > 0, %s > 0) and implies(f[%d] < 0, %s < 0)' % (i + 2, a, i + 2, a))
+    return k
+
+
+def _segment_pack_layout(lens):
+    @contract('C13', 'traj.segment.pack.layout.%d_%d_%d_%d' % lens, SEG_FUNCS,
+              clause=TRJ_CLAUSE + ' (segment with %d/%d/%d/%d control points for x/y/z/yaw, compositional: the packet is the type byte, '
+                     'the duration in ms and then exactly the values of _encode_spatial / _encode_yaw (error < 1 unit: contracts '
+                     'traj.encode_*.error) as little-endian int16 in the order x, y, z, yaw; struct.error iff one does not fit)' % lens,
+              bounded=BOUND + '; element length combinations %s: every axis with every length' % (COMBOS,))
+    def k(c):
+        seg, scaled = _segment_inputs(c, lens)
+        c.call((seg, 'pack'))
+        c.ensure('struct-error-only', "raised in (None, 'struct.error')")
+        fits = ['(0 <= int(duration * 1000.0) <= 65535)'] + ['(-32768 <= int(%s) <= 32767)' % e for _, e in scaled]
+        c.ensure('raises-iff-a-value-does-not-fit-16-bits', 'iff(raised is None, %s)' % ' and '.join(fits))
+        if c.get('raised') is None:
+            c.ensure('whole-packet', "bytes(result) == pack('<BH%s', %d, int(duration * 1000.0)%s)" % (
+                'h' * sum(lens), _type_byte(lens), ''.join(', int(%s)' % e for _, e in scaled)))
+    return k
+
+
+_segment_pack_direct((1, 1, 1, 1))
+for _l in COMBOS:
+    _segment_pack_layout(_l)
+
+
+# ------------------------------------------------------------------------- (c) RGB565 colours of the LED ring
+LED = 'cflib.crazyflie.mem.led_driver_memory'
+LEDT = 'cflib.crazyflie.mem.led_timings_driver_memory'
+LED_CLAUSE = ('8-bit colours map monotonically onto RGB565 with black to 0 and white to full scale at full intensity')
+
+
+def _rgb565_ensures(c, tag, w, r, g, b, it=None):
+    """post-conditions on one 16-bit RGB565 word `w` (spec expression) for the 8-bit levels r, g, b (spec expressions)"""
+    c.snapshot('R' + tag, '(%s) >> 11' % w)
+    c.snapshot('G' + tag, '((%s) >> 5) & 63' % w)
+    c.snapshot('B' + tag, '(%s) & 31' % w)
+    full = '' if it is None else ' and %s == 100' % it
+    for ch, lvl, top, bits in (('R', r, 31, 5), ('G', g, 63, 6), ('B', b, 31, 5)):
+        f = ch + tag
+        c.ensure('%s-black-is-0' % f, 'implies(%s == 0, %s == 0)' % (lvl, f))
+        c.ensure('%s-fits-%d-bits' % (f, bits), '0 <= %s <= %d' % (f, top))
+        c.ensure('%s-white-is-full-scale-at-full-intensity' % f, 'implies(%s == 255%s, %s == %d)' % (lvl, full, f, top))
+        c.ensure('%s-nearest-level-at-full-intensity' % f, 'implies(%s, 2 * abs(%s * 255 - %s * %d) <= 255)' % (
+            'True' if it is None else '%s == 100' % it, f, lvl, top))
+
+
+@contract('C13', 'led.write_data', [LED + ':LEDDriverMemory.__init__', LED + ':LEDDriverMemory.write_data', LED + ':LED.__init__', LED + ':LED.set'],
+          clause=LED_CLAUSE + ' (all 12 LEDs, all 256 levels per channel, all intensities 0..100; exactly one write of 24 bytes at '
+                              'address 0: big-endian RRRRRGGG GGGBBBBB per LED; monotone in the level and in the intensity)', float_mode='R')
+def led_write(c):
+    mh = c.ext('mh')
+    mem = c.new(LED + ':LEDDriverMemory', 4, 0x10, 24, mh)
+    c.let('mem', mem)
+    for i in range(12):
+        led = c.snapshot('led%d' % i, 'mem.leds[%d]' % i)
+        c.call((led, 'set'), c.int('r%d' % i, 0, 255), c.int('g%d' % i, 0, 255), c.int('b%d' % i, 0, 255))
+        c.set(led, 'intensity', c.int('it%d' % i, 0, 100))
+    c.reset_trace()
+    c.call((mem, 'write_data'), c.ext('cb'))
+    c.ensure('no-exception', 'raised is None')
+    if c.get('raised') is not None:
+        return
+    c.ensure('exactly-one-write', "len(trace) == 1 and len(sent('mh.write')) == 1")
+    c.snapshot('w', "sent('mh.write')[0]")
+    c.ensure('write-of-this-memory-at-address-0-flushing-the-queue',
+             "len(w[1]) == 3 and is_same(w[1][0], mem) and w[1][1] == 0 and len(w[2]) == 1 and w[2]['flush_queue'] is True")
+    c.snapshot('data', 'w[1][2]')
+    c.ensure('24-bytes', "typename(data) == 'bytearray' and len(data) == 24")
+    for i in range(12):
+        _rgb565_ensures(c, str(i), 'data[%d] * 256 + data[%d]' % (2 * i, 2 * i + 1), 'r%d' % i, 'g%d' % i, 'b%d' % i, 'it%d' % i)
+    for i in range(12):
+        j = (i + 1) % 12
+        for ch, lvl in (('R', 'r'), ('G', 'g'), ('B', 'b')):
+            for a, b in ((i, j), (j, i)):
+                c.ensure('%s-monotone-in-level-led%d-vs-led%d' % (ch, a, b),
+                         'implies(it%d == it%d and %s%d <= %s%d, %s%d <= %s%d)' % (a, b, lvl, a, lvl, b, ch, a, ch, b))
+                c.ensure('%s-monotone-in-intensity-led%d-vs-led%d' % (ch, a, b),
+                         'implies(%s%d == %s%d and it%d <= it%d, %s%d <= %s%d)' % (lvl, a, lvl, b, a, b, ch, a, ch, b))
